@@ -1,3 +1,4 @@
 """names a sidecar contract module needs"""
+from .types import PATH
 from .types import INT, BOOL, STR, ANY, NONE, Opt, OptT, Tup, TupT, Seq, SeqT, SetT, DictT, Obj, ObjT, POS
 from .spec import FnSpec, Family, Contract
